@@ -27,6 +27,10 @@ CLAIMED = {
     "C12": ("Allowed_C12", "5 C12", ""),
     "C13": ("Allowed_C13", "5 C13", "The decision is predicted from the implementation's own popularity estimates read through the hook."),
     "C16": ("Allowed_C16", "5 C16", ""),
+    "C08": ("Allowed_C08 plus the crash flags of UnsyncCache.tla / SyncCache.tla, Deque.tla's well-formedness and refinement invariants and Sketch.tla's overflow flag",
+            "5 C08", "TLC evaluates the list invariants on structural walks of the real heap taken after every call; every execution runs with overflow checks and debug assertions on, each behaviour isolated (a panic or a signal becomes a Panic / Crash event that no monitor accepts). Machine-level memory safety beyond that is the run-time environment's verdict, not TLA+'s (DESIGN.md 2.3)."),
+    "C14": ("Allowed_Sk14 in spec/Sketch.tla for the estimator itself, Allowed_C14 for the cache-level clause",
+            "5 C14", "Sketch.tla is model-checked exhaustively for the tiny tables of capacities 0..3 with colliding and disjoint hash families; abstract hashes are concretised by search through the facade."),
 }
 EXTRA = {}   # filled by later rounds: property -> dict(text=..., note=..., technique=..., category=...)
 
